@@ -208,6 +208,19 @@ func ruleC06During(p *Prog, r *Res) {
 							arg = stripStar(c.Args[0])
 						}
 					}
+					if arg == "" && isFieldOf(info, as.Rhs[0], p.Field("manager", "Manager", "allStreams")) {
+						// a raise to all streams (sub-query data tags, #78): the re-apply raises all streams for such a tag whenever
+						// it runs (invalidateTags, SubQueryFeatures != 0), and it runs when anything was recorded
+						isAnyRecord := func(m ast.Node) bool {
+							return fl.hasCall(m, func(cc *ast.CallExpr) bool {
+								se, ok := ast.Unparen(cc.Fun).(*ast.SelectorExpr)
+								return ok && se.Sel.Name == "Or" && len(cc.Args) == 1 && fieldOf(info, se.X) == flds[0]
+							})
+						}
+						after := fl.ExitAvoiding([]Pt{{b, i + 1}}, isAnyRecord)
+						r.Check(!after.Found, rule, comp.Key()+" records something when it raises all streams", p.Pos(as), "a record in updatedStreamsDuringTaggingJob follows on every path", "converter completion raises Uncertain to all streams without recording anything for a running tagging job: "+fl.traceString(after))
+						continue
+					}
 					if arg == "" {
 						r.Undecided(rule, comp.Key()+" raise of Uncertain", p.Pos(as), "cannot identify the streams being raised")
 						continue
